@@ -43,7 +43,8 @@ def gen_case(rng, name):
     rng.shuffle(pc)
     c["perm_r"], c["perm_c"] = pr, pc
     c["relabel"] = rng.random() < 0.6
-    c["mult"] = rng.choice([1.0, 2.0, 0.25, 8.0, 3.0, 0.7, 100.0, 1024.0, 0.001]) if name in HOMOGENEOUS else 1.0
+    c["mult"] = rng.choice([1.0, 2.0, 0.25, 8.0, 3.0, 0.7, 100.0, 1024.0, 0.001, 1e-9, 1e-12, 2.0 ** -40, 1e6, 1e12]) \
+        if name in HOMOGENEOUS else 1.0
     steps = []
     if rng.random() < 0.4 and name not in ("wsm", "wpm"):
         positive = all(x > 0 for r in c["matrix"] for x in r)
@@ -56,6 +57,11 @@ def gen_case(rng, name):
             if not pool:
                 break
             cfg = T.config(rng, rng.choice(pool))
+            centred = any(q["cls"] == "StandarScaler" and q["params"].get("target") in ("weights", "both")
+                          and q["params"].get("with_mean", True) for q in steps)
+            if centred and cfg["cls"] in ("SumScaler", "VectorScaler", "MaxAbsScaler") \
+                    and cfg["params"].get("target") in ("weights", "both"):
+                continue     # mean-centred weights sum to zero up to rounding: dividing by that sum is 0/0, not a problem statement
             if cfg["cls"] == "MinMaxScaler":
                 cfg["params"]["criteria_range"] = [1.0, 2.0] if name in ("fmf", "multimoora") else cfg["params"]["criteria_range"]
             steps.append(cfg)
@@ -180,14 +186,20 @@ def compare(ctx, c, o1, o2, back):
             ctx.oracle_fail(c, {"oracle": f"{name}: ranks differ by alternative name in the exact regime",
                                 "first": v1, "second": v2})
         return
-    # margin regime: scores comparable when the score itself is presentation independent
+    # margin regime: scores comparable when the score itself is presentation independent.  The absolute floor of
+    # the margin (cancellation noise of O(1) terms) scales with the multiplier where the score is homogeneous of
+    # degree one in the weights and no step recomputes them; elsewhere it only ever grows
+    if name in ("wsm", "wpm", "ratio", "refpoint") and not c["steps"]:
+        floor2 = c["mult"]
+    else:
+        floor2 = max(1.0, c["mult"]) if name in ("wsm", "wpm", "ratio", "refpoint") else 1.0
     for a in alts:
         for b in alts:
             if a >= b:
                 continue
             d1, d2 = s1[a] - s1[b], s2[a] - s2[b]
             m1 = 1e-9 * max(1.0, abs(s1[a]), abs(s1[b]))
-            m2 = 1e-9 * max(1.0, abs(s2[a]), abs(s2[b]))
+            m2 = 1e-9 * max(floor2, abs(s2[a]), abs(s2[b]))
             if abs(d1) > m1 and abs(d2) > m2:
                 if (d1 > 0) != (d2 > 0):
                     ctx.oracle_fail(c, {"oracle": f"{name}: alternatives {a},{b} are ordered differently by the two "
